@@ -1,0 +1,47 @@
+//go:build verif
+
+package redisemu
+
+// C17: one step of SCAN/HSCAN/SSCAN (dictScanUnlocked), in bucket-index space.
+// The cursor handed to clients is the bit-reversed index; a step
+//   * starts at the bucket whose reversed index is the cursor masked to the table,
+//   * visits buckets in strictly increasing index order,
+//   * between two visited buckets skips only empty buckets,
+//   * returns the reversed index of the next bucket to visit (0 at the end).
+// Together with the placement lemmas (zz_contracts_verif.go) this is the step
+// contract of the full-iteration guarantee.
+
+//@ ghost scanStarted bool
+//@ ghost scanFirst uint32
+//@ ghost scanNext uint32
+//@ ghost scanCursor uint32
+
+//@ func dataStoreCommand.dictScanUnlocked
+//@ prop C08 C16 C17
+//@ guards on
+//@ safetyprop C13
+//@ fresh kk in 4..31 split
+//@ requires dscOK(dsc) && data != nil
+//@ requires [C08,C16] locked: held
+//@ requires tablesize: len(data.buckets) >= 16 && len(data.buckets) <= (1<<31) && len(data.buckets)&(len(data.buckets)-1) == 0
+//@ requires len(data.buckets) == 1<<uint(kk)
+//@ requires !scanStarted
+//@ modifies heap ghost.lookupAbsent ghost.scanStarted ghost.scanFirst ghost.scanNext ghost.scanCursor
+//@ callback isMatch
+//@ pure
+//@ endcallback
+//@ ghostafter "index := bits.Reverse32" : if !scanStarted : scanFirst = index
+//@ ghostafter "index := bits.Reverse32" : scanStarted = true
+//@ ghostafter "cursor = bits.Reverse32(nextCursor" : scanNext = nextCursor
+//@ ghostafter "cursor = bits.Reverse32(nextCursor" : scanCursor = cursor
+//@ ensures stillheld: held
+//@ ensures [C10] absent.mono: old(lookupAbsent) ==> lookupAbsent
+//@ ensures [C19] dirty.mono: old(dsc.ds.data.dirty) ==> dsc.ds.data.dirty
+//@ ensures [C17] start: scanStarted ==> scanFirst == reverse32((cursor & (uint32(1)<<uint(kk) - 1)) << uint(32-kk))
+//@ ensures [C17] resume: scanStarted ==> scanCursor == reverse32(scanNext << uint(32-kk)) && scanNext > scanFirst && scanNext <= uint32(1)<<uint(kk)
+//@ loop 1 invariant held && (old(lookupAbsent) ==> lookupAbsent) && (old(dsc.ds.data.dirty) ==> dsc.ds.data.dirty)
+//@ loop 1 invariant [C17] order: scanStarted ==> cursor == reverse32(scanNext << uint(32-kk)) && scanCursor == cursor && scanNext < uint32(1)<<uint(kk) && scanNext > scanFirst
+//@ loop 1 invariant [C17] first: !scanStarted ==> cursor == old(cursor) & (uint32(1)<<uint(kk) - 1)
+//@ loop 1 invariant [C17] startfix: scanStarted ==> scanFirst == reverse32((old(cursor) & (uint32(1)<<uint(kk) - 1)) << uint(32-kk))
+//@ loop 2 invariant [C17] skip: index < nextCursor && nextCursor <= highBit && all(j, int(index)+1, int(nextCursor), data.buckets[j] == nil)
+//@ loop 2 invariant held && scanStarted && (old(lookupAbsent) ==> lookupAbsent) && (old(dsc.ds.data.dirty) ==> dsc.ds.data.dirty)
